@@ -213,23 +213,22 @@ Qed.
 Definition hdr_accepted (h : adts_hdr) : Prop := h_profile h < 3 /\ 1 <= h_sfi h <= 12 /\ 1 <= h_ch h <= 7.
 Definition frame_asc (h : adts_hdr) : asc := mk_asc (h_profile h + 1) (h_sfi h) (h_ch h).
 
-Lemma decode_spec_frame h raw tail st :
-  hdr_wf h -> hdr_accepted h -> 1 <= lenN raw -> spec_adts_hdr_len h + lenN raw <= 8191 ->
-  adts_decode st (spec_adts_frame h raw ++ tail) = (frame_asc h, Ok (raw, tail)).
+Lemma decode_hdr7 h flen c0 c1 raw tail st :
+  hdr_wf h -> hdr_accepted h -> 1 <= lenN raw -> flen = spec_adts_hdr_len h + lenN raw -> flen <= 8191 ->
+  adts_decode st (hdr7_of h flen ++ (if h_pa h =? 0 then [c0; c1] else []) ++ raw ++ tail)
+  = (frame_asc h, Ok (raw, tail)).
 Proof.
-  intros Hw (Hp3 & Hsfi & Hchr) Hraw Hlen.
-  rewrite (spec_frame_bytes h raw Hw) by lia.
+  intros Hw (Hp3 & Hsfi & Hchr) Hraw Hfl Hlen.
   destruct raw as [|x raw']; [change (lenN []) with 0 in Hraw; lia|].
   pose proof Hw as (Hid & Hl & Hpa & Hp & Hs & Hpr & Hch & Ho & Hh & Hcb & Hcs & Hu & Hn & Hcrc).
   unfold adts_decode, hdr7_of.
-  rewrite <- !app_assoc. cbn [be_bytes]. cbn [app].
-  change (x :: raw' ++ tail) with (x :: (raw' ++ tail)).
-  match goal with |- context [if ?c then [?a; ?b] else []] =>
-    change ((if c then [a; b] else []) ++ x :: (raw' ++ tail)) with ((if c then [a; b] else []) ++ x :: (raw' ++ tail)) end.
-  rewrite parse_head_hdr7 by (assumption || (unfold spec_adts_hdr_len in *; destruct (h_pa h =? 0); lia)).
+  change ((x :: raw') ++ tail) with (x :: (raw' ++ tail)).
+  rewrite parse_head_hdr7 by (assumption || lia).
   cbn [hd_profile hd_sfi hd_ch hd_flen hd_nbheader hd_rest].
   rewrite (to_object_lt3 _ Hp3).
-  assert (E : u16 (spec_adts_hdr_len h + lenN (x :: raw') + 65536 - (if h_pa h =? 0 then 9 else 7)) = lenN (x :: raw')).
+  replace (flen <? (if h_pa h =? 0 then 9 else 7)) with false
+    by (symmetry; apply N.ltb_ge; unfold spec_adts_hdr_len in Hfl; destruct (h_pa h =? 0); lia).
+  assert (E : u16 (flen + 65536 - (if h_pa h =? 0 then 9 else 7)) = lenN (x :: raw')).
   { unfold u16, spec_adts_hdr_len in *. destruct (h_pa h =? 0); lia. }
   rewrite E. clear E.
   rewrite len_ltN_spec. change (x :: (raw' ++ tail)) with ((x :: raw') ++ tail). rewrite lenN_app.
@@ -238,6 +237,16 @@ Proof.
   assert (V : validate (mk_asc (h_profile h + 1) (h_sfi h) (h_ch h)) = Ok tt).
   { apply validate_spec. unfold accepted, accepted_obj. cbn [aobj asr ach]. lia. }
   rewrite V. reflexivity.
+Qed.
+
+Lemma decode_spec_frame h raw tail st :
+  hdr_wf h -> hdr_accepted h -> 1 <= lenN raw -> spec_adts_hdr_len h + lenN raw <= 8191 ->
+  adts_decode st (spec_adts_frame h raw ++ tail) = (frame_asc h, Ok (raw, tail)).
+Proof.
+  intros Hw Ha Hraw Hlen.
+  rewrite (spec_frame_bytes h raw Hw) by lia. rewrite be_bytes_2.
+  rewrite <- !app_assoc.
+  apply decode_hdr7; try assumption; reflexivity.
 Qed.
 
 (* ---- the encoder writes the specification's frame ---- *)
@@ -441,6 +450,7 @@ Proof.
   unfold adts_decode. pose proof (adts_parse_head_total data) as T.
   destruct (adts_parse_head data) as [h|e|s']; cbn [snd]; [|discriminate|exfalso; exact (T s' eq_refl)].
   destruct (to_object_total (hd_profile h)) as [o ->].
+  destruct (hd_flen h <? hd_nbheader h); cbn [snd]; [discriminate|].
   destruct (len_ltN (hd_rest h) _) eqn:L; cbn [snd]; [discriminate|].
   pose proof (splitN_total _ _ L) as S.
   destruct (splitN (hd_rest h) _) as [[raw rest]|]; [|congruence].
@@ -476,6 +486,7 @@ Proof.
   - destruct t as [|q0 [|q1 t]]; cbn [len_gt negb]; try discriminate.
     cbn [drop_chk take bind hd_profile hd_rest hd_flen hd_nbheader hd_sfi hd_ch].
     destruct (to_object _) as [o|e|s']; try discriminate.
+    destruct (_ <? _); [discriminate|].
     destruct (len_ltN _ _); [discriminate|].
     destruct (splitN _ _) as [[r l]|] eqn:S; [|discriminate].
     destruct (validate _); try discriminate. intros H. inversion H; subst.
@@ -483,6 +494,7 @@ Proof.
     exists [p0; p1; p2; p3; p4; p5; p6; p7; q0]. cbn [app length]. rewrite <- S. split; [reflexivity|right; reflexivity].
   - cbn [hd_profile hd_rest hd_flen hd_nbheader hd_sfi hd_ch].
     destruct (to_object _) as [o|e|s']; try discriminate.
+    destruct (_ <? _); [discriminate|].
     destruct (len_ltN _ _); [discriminate|].
     destruct (splitN _ _) as [[r l]|] eqn:S; [|discriminate].
     destruct (validate _); try discriminate. intros H. inversion H; subst.
@@ -504,19 +516,133 @@ Proof.
   rewrite asc_unmarshal_fields by assumption. rewrite (proj2 (validate_spec _) Ha). reflexivity.
 Qed.
 
-(* a frame_length field smaller than the header: the uint16 subtraction wraps to 65529 *)
-Lemma length_underflow st x p :
-  adts_decode st ([255; 241; 80; 128; 0; 0; 252] ++ x :: p) =
-  (mk_asc 2 4 2, if lenN (x :: p) <? 65529 then Err 4
-                 else match splitN (x :: p) 65529 with Some (raw, rest) => Ok (raw, rest) | None => Panic 10 end).
+(* a frame_length field smaller than the header is rejected, whatever follows (cd86513) *)
+Lemma short_length_rejected h flen c0 c1 x rest st :
+  hdr_wf h -> flen < spec_adts_hdr_len h ->
+  exists a, adts_decode st (hdr7_of h flen ++ (if h_pa h =? 0 then [c0; c1] else []) ++ x :: rest) = (a, Err 9).
 Proof.
-  pose proof (parse_head_hdr7 0 0 1 1 4 0 2 0 0 0 0 0 63 0 0 0 x p) as P.
-  cbn [N.eqb Pos.eqb app] in P.
-  change (hdr7 0 0 1 1 4 0 2 0 0 0 0 0 63 0) with [255; 241; 80; 128; 0; 0; 252] in P.
-  unfold adts_decode. cbn [app] in *. rewrite P by lia.
+  intros Hw Hfl.
+  pose proof Hw as (Hid & Hl & Hpa & Hp & Hs & Hpr & Hch & Ho & Hh & Hcb & Hcs & Hu & Hn & Hcrc).
+  unfold adts_decode, hdr7_of.
+  rewrite parse_head_hdr7 by (assumption || (unfold spec_adts_hdr_len in Hfl; destruct (h_pa h =? 0); lia)).
   cbn [hd_profile hd_sfi hd_ch hd_flen hd_nbheader hd_rest].
-  rewrite (to_object_lt3 1) by lia. change (1 + 1) with 2.
-  change (u16 (0 + 65536 - 7)) with 65529.
-  rewrite len_ltN_spec. destruct (lenN (x :: p) <? 65529); [reflexivity|].
-  destruct (splitN (x :: p) 65529) as [[raw rest]|]; reflexivity.
+  destruct (to_object_total (h_profile h)) as [o ->].
+  replace (flen <? (if h_pa h =? 0 then 9 else 7)) with true
+    by (symmetry; apply N.ltb_lt; unfold spec_adts_hdr_len in Hfl; destruct (h_pa h =? 0); lia).
+  eexists. reflexivity.
 Qed.
+
+(* a successful decode implies frame_length >= header size and |raw| = frame_length - header *)
+Lemma adts_decode_ok_length st data a raw rest :
+  adts_decode st data = (a, Ok (raw, rest)) ->
+  exists h, adts_parse_head data = Ok h /\ hd_nbheader h <= hd_flen h /\ lenN raw = u16 (hd_flen h + 65536 - hd_nbheader h).
+Proof.
+  unfold adts_decode. destruct (adts_parse_head data) as [h|e|s]; try discriminate.
+  destruct (to_object _) as [o|e|s]; try discriminate.
+  destruct (N.ltb_spec (hd_flen h) (hd_nbheader h)); [discriminate|].
+  destruct (len_ltN _ _); [discriminate|].
+  destruct (splitN _ _) as [[r l]|] eqn:S; [|discriminate].
+  destruct (validate _); try discriminate. intros E. inversion E; subst.
+  exists h. split; [reflexivity|]. split; [assumption|]. apply splitN_some in S. apply S.
+Qed.
+
+(* ---- frames with several raw data blocks ---- *)
+(* a list of 16-bit fields packs to two big-endian bytes each *)
+Lemma pack16 ps : pack_fields (map (fun p => (p, 16)) ps) = flat_map (fun p => be_bytes 2 p) ps.
+Proof.
+  induction ps as [|p ps IH] using rev_ind; [reflexivity|].
+  rewrite map_app, flat_map_app. cbn [map flat_map]. rewrite app_nil_r, <- IH.
+  unfold pack_fields. rewrite fields_width_app, fields_val_app. cbn [fold_left fst snd].
+  unfold fields_width at 2. cbn [fold_left snd].
+  assert (W : exists k, fields_width (map (fun p0 : N => (p0, 16)) ps) = 16 * N.of_nat k).
+  { clear. induction ps as [|q ps [k IH]] using rev_ind; [exists 0%nat; reflexivity|].
+    rewrite map_app, fields_width_app, IH. exists (S k). unfold fields_width. cbn [map fold_left snd]. lia. }
+  destruct W as [k W]. rewrite W.
+  replace (N.to_nat ((16 * N.of_nat k + (0 + 16)) / 8)) with (2 * k + 2)%nat by lia.
+  replace (N.to_nat (16 * N.of_nat k / 8)) with (2 * k)%nat by lia.
+  change (2 ^ 16) with (256 ^ N.of_nat 2).
+  rewrite be_bytes_app by (apply N.mod_lt; discriminate).
+  f_equal. apply be_bytes_mod.
+Qed.
+
+Lemma pack16_one c : pack_fields [ (c, 16) ] = be_bytes 2 c.
+Proof. pose proof (pack16 [c]) as P. cbn [map flat_map] in P. rewrite app_nil_r in P. exact P. Qed.
+
+Lemma spec_multi_bytes h blocks :
+  hdr_wf h -> h_nblocks h = countN blocks - 1 -> 7 + lenN (spec_multi_body h blocks) < 8192 ->
+  spec_adts_frame_multi h blocks =
+  hdr7_of h (7 + lenN (spec_multi_body h blocks)) ++ spec_multi_body h blocks.
+Proof.
+  intros (Hid & Hl & Hpa & Hp & Hs & Hpr & Hch & Ho & Hh & Hcb & Hcs & Hu & Hn & Hcrc) Hnb Hlen.
+  unfold spec_adts_frame_multi. cbv zeta. f_equal. rewrite <- Hnb. unfold pack_fields.
+  match goal with |- be_bytes (N.to_nat (fields_width ?l / 8)) _ = _ =>
+    change (N.to_nat (fields_width l / 8)) with 7%nat end.
+  apply hdr_val_bytes; assumption.
+Qed.
+
+Definition multi_ok (h : adts_hdr) (blocks : list (bytes * N)) : Prop :=
+  hdr_wf h /\ hdr_accepted h /\ h_nblocks h = countN blocks - 1 /\ blocks <> [] /\
+  Forall (fun b => 1 <= lenN (fst b)) blocks /\ 7 + lenN (spec_multi_body h blocks) <= 8191.
+
+(* without protection: the blocks come back concatenated *)
+Lemma decode_multi_nocrc h blocks tail st :
+  multi_ok h blocks -> h_pa h = 1 ->
+  adts_decode st (spec_adts_frame_multi h blocks ++ tail) = (frame_asc h, Ok (flat_map fst blocks, tail)).
+Proof.
+  intros (Hw & Ha & Hnb & Hne & Hbl & Hlen) Hpa.
+  rewrite spec_multi_bytes by (assumption || lia).
+  assert (B : spec_multi_body h blocks = flat_map fst blocks) by (unfold spec_multi_body; rewrite Hpa; reflexivity).
+  rewrite B in *. rewrite <- app_assoc.
+  pose proof (decode_hdr7 h (7 + lenN (flat_map fst blocks)) 0 0 (flat_map fst blocks) tail st Hw Ha) as D.
+  rewrite Hpa in D. cbn [N.eqb Pos.eqb app] in D. apply D.
+  - destruct blocks as [|b bl]; [congruence|]. inversion Hbl as [|? ? H1 H2]; subst. cbv beta in H1. cbn [flat_map]. rewrite lenN_app. unfold bytes in *. lia.
+  - unfold spec_adts_hdr_len. rewrite Hpa. reflexivity.
+  - exact Hlen.
+Qed.
+
+(* with protection: everything after the first two bytes of the header error check comes back *)
+Lemma decode_multi_crc h blocks tail st :
+  multi_ok h blocks -> h_pa h = 0 ->
+  adts_decode st (spec_adts_frame_multi h blocks ++ tail) =
+  (frame_asc h, Ok (skipn 2 (spec_multi_body h blocks), tail)).
+Proof.
+  intros (Hw & Ha & Hnb & Hne & Hbl & Hlen) Hpa.
+  rewrite spec_multi_bytes by (assumption || lia).
+  assert (B : exists c0 c1 rest, spec_multi_body h blocks = c0 :: c1 :: rest /\ 1 <= lenN rest).
+  { unfold spec_multi_body. rewrite Hpa. cbn [N.eqb]. rewrite pack16.
+    destruct blocks as [|b bl]; [congruence|].
+    assert (L : 1 <= lenN (flat_map (fun b0 : bytes * N => fst b0 ++ pack_fields [(snd b0, 16)]) (b :: bl))).
+    { cbn [flat_map]. rewrite !lenN_app, pack16_one, (lenN_length (be_bytes 2 _)), be_bytes_length. lia. }
+    destruct (tl (spec_block_offsets 0 2 (b :: bl)) ++ [h_crc h]) as [|q ps] eqn:E.
+    { destruct (tl (spec_block_offsets 0 2 (b :: bl))); discriminate. }
+    cbn [flat_map]. rewrite be_bytes_2. cbn [app]. eexists. eexists. eexists. split; [reflexivity|].
+    rewrite lenN_app. cbn [flat_map] in L. unfold bytes in *. lia. }
+  destruct B as (c0 & c1 & rest & B & Lr). rewrite B in *. cbn [skipn].
+  pose proof (decode_hdr7 h (7 + lenN (c0 :: c1 :: rest)) c0 c1 rest tail st Hw Ha Lr) as D.
+  rewrite Hpa in D. cbn [N.eqb app] in D. rewrite <- app_assoc. cbn [app]. apply D.
+  - unfold spec_adts_hdr_len. rewrite Hpa. cbn [N.eqb]. rewrite !lenN_cons. lia.
+  - exact Hlen.
+Qed.
+
+(* ... which is not the raw data blocks *)
+Lemma decode_multi_crc_refuted :
+  exists h blocks, multi_ok h blocks /\ h_pa h = 0 /\
+    snd (adts_decode asc0 (spec_adts_frame_multi h blocks)) <> Ok (flat_map fst blocks, []).
+Proof.
+  exists (mk_hdr 0 0 0 1 4 0 2 0 0 0 0 2047 1 42405), [([1], 49920); ([2], 49921)].
+  split; [|split; [reflexivity|vm_compute; discriminate]].
+  unfold multi_ok, hdr_wf, hdr_accepted. cbn. repeat split; try lia; try discriminate.
+  repeat constructor; cbn; lia.
+Qed.
+
+(* ---- the generated enum String helpers never panic (any integer) ---- *)
+Ltac string_total :=
+  repeat match goal with |- exists s, (if ?c then _ else _) = Ok s => destruct c end; eexists; reflexivity.
+Lemma objecttype_string_total v : exists s, aac_ObjectType_String v = Ok s.
+Proof. unfold aac_ObjectType_String. string_total. Qed.
+Lemma profile_string_total v : exists s, aac_Profile_String v = Ok s.
+Proof. unfold aac_Profile_String. string_total. Qed.
+Lemma sampleindex_string_total v : exists s, aac_SampleRateIndex_String v = Ok s.
+Proof. unfold aac_SampleRateIndex_String. string_total. Qed.
+Lemma channels_string_total v : exists s, aac_Channels_String v = Ok s.
+Proof. unfold aac_Channels_String. string_total. Qed.
